@@ -86,6 +86,8 @@ def run_leaf_groups(chk, cid_prefix, ctx, leaves, groups, cfgname):
             g_refine(exs['refine'], ctx, lf)
         if 'query' in groups:
             g_query(exs['query'], ctx, lf)
+    if 'query' in groups:
+        finish_query(exs['query'], ctx)
 
 
 # ---------------------------------------------------------------- equilibration phase (C05.D1, C11)
@@ -317,17 +319,37 @@ def g_refine(ex, c, lf):
 
 # ---------------------------------------------------------------- size query (C08.D3)
 def g_query(ex, c, lf):
+    """collects, per routine, what a size query writes / runs before it returns; reported once per routine by finish_query"""
     v, p = lf.val, c.p
     if v.get('lwork') != -1 or not c.nofact(lf):
         return
-    sel = ['lwork', 'Equil'] + (['RowPerm'] if c.ilu else [])
+    acc = ex.__dict__.setdefault('_query', {'targets': set(), 'phases': set(), 'leaves': 0, 'line': None})
+    acc['leaves'] += 1
     allowed = ('$%d' % c.k_info, '$%d' % c.k_mem_usage, '$%d->utime' % c.k_stat, '$%d' % c.k_stat)
-    bad = [e for e in lf.stores() if not e['base'].startswith(allowed) and e['base'].startswith('$')]
-    names = sorted({e['target'] for e in bad})
-    ex.check(lf, not bad, 'query-has-no-side-effects', sel,
-             'lwork = -1 must only report the size estimate in info / mem_usage; the driver itself writes %s before returning' % names, bad[0]['line'] if bad else None)
-    calls = lf.calls(lambda n: n in (p + 'laqgs', p + 'gsequ', 'get_perm_c', 'sp_preorder', p + 'ldperm'))
-    nm = sorted({e['name'] for e in calls})
-    ex.check(lf, not calls, 'query-runs-no-phase', sel,
-             'lwork = -1 must leave every argument as it was; before the estimate is returned the driver runs %s (which write A, equed, R, C, perm_c, etree)' % nm,
-             calls[0]['line'] if calls else None)
+    names = {c.k_A: 'A', c.k_equed: 'equed', c.k_R: 'R', c.k_C: 'C', c.k_perm_c: 'perm_c', c.k_perm_r: 'perm_r', c.k_etree: 'etree', c.k_B: 'B', c.k_X: 'X',
+             c.k_L: 'L', c.k_U: 'U'}
+    for e in lf.stores():
+        if e['base'].startswith('$') or e['base'].startswith('*$'):
+            if not e['base'].startswith(allowed) and not e['target'].startswith(tuple('*' + a for a in allowed)):
+                k = int(''.join(ch for ch in e['base'].lstrip('*$').split('-')[0].split('[')[0] if ch.isdigit()) or 0)
+                root = '$%d' % k
+                suffix = e['target'].replace('*' + root, '', 1) if e['target'].startswith('*') else e['target'].replace(root, '', 1)
+                acc['targets'].add(names.get(k, root) + suffix[:24])
+                acc['line'] = acc['line'] or e['line']
+    for e in lf.calls(lambda n: n in (p + 'laqgs', p + 'gsequ', 'get_perm_c', 'sp_preorder', p + 'ldperm')):
+        acc['phases'].add(e['name'])
+        acc['line'] = acc['line'] or e['line']
+
+
+def finish_query(ex, c):
+    acc = ex.__dict__.get('_query')
+    if not acc:
+        return
+    inst = '%s:size-query-has-no-side-effects' % c.f.name
+    if acc['targets'] or acc['phases']:
+        ex.chk.violate(ex.cid, inst + ':{%s}' % ','.join(sorted(acc['phases'])), '%s:%d' % (c.f.unit, acc['line'] or c.f.line), c.f.name,
+                       'lwork = -1 must only report the size estimate in info / mem_usage and leave every other argument as it was; before returning the driver runs %s '
+                       '(which overwrite A\'s values/row indices, equed, R, C, perm_c, etree) and itself writes %s; nothing is undone (%d query valuations)'
+                       % (sorted(acc['phases']), sorted(acc['targets']), acc['leaves']), cfgname=ex.cfgname)
+    else:
+        ex.chk.ok(ex.cid, inst, sample='%d query valuations' % acc['leaves'])
